@@ -174,83 +174,121 @@ Theorem C05_source_record_taken_back_exactly_when : forall (fail : string -> opt
 Proof. exact src_dec_unplay_iff. Qed.
 Print Assumptions C05_source_record_taken_back_exactly_when.
 (* replay_insert's outcome x the retry exemption, as in the model's replay stage *)
-Theorem C05_source_replay_stage : forall (cf : conf) (ins en c : Z) (m : msg),
-  src_dec_validate_replay cf ins en c m =
-  ((if (ins =? 0)%Z then 0
+Theorem C05_source_replay_stage : forall (cf : conf) (clk ins en c : Z) (m : msg),
+  src_dec_validate_replay cf clk ins en c m =
+  ((if (ins =? 0)%Z then (if (clk =? -1)%Z then e_snafu
+                          else if (clk >? Z.of_N (m_time0 m) + Z.of_N (m_ttl m))%Z then e_cred_expired else 0)
     else if (ins >? 0)%Z
          then (if cf_socket_retry cf && (0 <? m_retry m) && (m_retry m <=? c_retry_attempts) then 0 else e_cred_replayed)
-    else if (en =? 12)%Z then e_no_memory else e_snafu), m, (if (ins =? 0)%Z then 1 else c)%Z).
+    else if (en =? 12)%Z then e_no_memory else e_snafu), m,
+   (if (ins =? 0)%Z && negb (clk =? -1)%Z && negb (clk >? Z.of_N (m_time0 m) + Z.of_N (m_ttl m))%Z then 1 else c)%Z).
 Proof. exact dec_validate_replay_is_source. Qed.
 Print Assumptions C05_source_replay_stage.
 (* the translated dec_process_msg over the model's stage functions IS CredModel.dec_process (+ dec_rollback when the
    reply could not be sent): reply, replay state afterwards, return code *)
 Theorem C05_source_pipeline_is_model :
   forall (hmac : N -> bytes -> bytes -> bytes) (sha1 : bytes -> bytes) (blk_dec : N -> bytes -> bytes -> bytes)
-         (zdecomp : N -> bytes -> N -> option bytes) (cf : conf) (mem : N -> N -> bool) (pu pg now : N)
+         (zdecomp : N -> bytes -> N -> option bytes) (cf : conf) (mem : N -> N -> bool) (pu pg now now2 : N)
          (rs : CredModel.rstate) (m : msg) (send_ok : bool),
-  let '(rc, s) := src_dec_process_msg (dec_ops hmac sha1 blk_dec zdecomp cf mem pu pg now send_ok) (dinit m rs) in
-  let '(r, rs', k) := dec_process hmac sha1 blk_dec zdecomp cf mem rs m pu pg now in
+  let '(rc, s) := src_dec_process_msg (dec_ops hmac sha1 blk_dec zdecomp cf mem pu pg now now2 send_ok) (dinit m rs) in
+  let '(r, rs', k) := dec_process2 hmac sha1 blk_dec zdecomp cf mem rs m pu pg now now2 in
   d_msg s = r /\ d_rs s = (if send_ok then rs' else dec_rollback rs' k) /\
-  rc = (if send_ok && dec_accepts hmac sha1 blk_dec zdecomp cf mem pu pg now rs m then 0 else -1)%Z.
+  rc = (if send_ok && dec_accepts hmac sha1 blk_dec zdecomp cf mem pu pg now now2 rs m then 0 else -1)%Z.
 Proof. exact dec_process_is_source. Qed.
 Print Assumptions C05_source_pipeline_is_model.
 
-(* ---- first attempts decode at most once, over whole histories of one daemon (CredHistory.v): events are decode
-        requests with a delivered reply (HDecode), decode requests whose reply cannot be delivered (HDecodeLost: the
-        daemon takes back what the request added) and purge ticks (HPurge); the request message carries the retry value
-        (any N, so 0..255 in particular), clients and clock readings are arbitrary per event ---- *)
+(* ---- first attempts decode at most once, over whole histories of one daemon (CredHistory.v).  A decode is NOT atomic
+        in time: it reads the clock when the request is received (t1: time-window check, decode time of the reply) and
+        again at its replay step (t2: dec_validate_replay, after replay_insert).  Events: HDecode m pu pg t1 t2 (reply
+        delivered), HDecodeLost m pu pg t1 t2 (reply cannot be delivered: the daemon takes back what the request added
+        and owns), HPurge p; they are linearised at their replay step / at the purge.  The request message carries the
+        retry value (any N, so 0..255 in particular); clients are arbitrary per event.  The ONLY assumption on time is
+        clock_ok: event times (t2 / p) non-decreasing along the history - forward jumps of any size allowed - and
+        t1 <= t2 within a decode; purges may fall anywhere. ---- *)
 From MV Require Import CredProofs RetryModel RetryProofs CredHistory.
-(* after a DELIVERED decode of credential X that authenticates, is authorized and in time (any retry value - in
-   particular after a delivered success), every later request for X with retry = 0 inside the window is answered
-   'replayed' and changes nothing, whatever came before (h1) and in between (h2: any mix of delivered / undeliverable
-   decodes of any credentials with any retry values from any clients at any clock readings, and purge ticks at clock
-   readings not beyond the final request's).  Hence at most one retry-0 request per credential with a delivered reply
-   succeeds while its record can still be present. *)
+(* after a DELIVERED decode of credential X that authenticated, was authorized and in time at its receipt (any retry
+   value, any clock readings - in particular after a delivered success), every later request for X with retry = 0 that
+   was inside the window when received is NOT accepted, whatever came before (h1) and in between (h2: any mix of
+   delivered / undeliverable decodes of any credentials with any retry values from any clients, each with its own two
+   clock readings, and purge ticks anywhere): it is answered 'replayed', or 'expired' when a purge has discarded the
+   record (then its replay step is after the last valid second).  Hence at most one retry-0 request per credential with
+   a delivered reply ever succeeds. *)
 Theorem C05_first_attempts_at_most_once :
   forall (hmac : N -> bytes -> bytes -> bytes) (sha1 : bytes -> bytes) (blk_dec : N -> bytes -> bytes -> bytes)
          (zdecomp : N -> bytes -> N -> option bytes) cf mem (rs0 : CredModel.rstate) h1 h2
-         mA puA pgA nowA mA' m pu pg now m' k,
-  dec_pre hmac sha1 blk_dec zdecomp cf mem mA puA pgA nowA = inr (mA', k) ->
-  (forall p, In (HPurge p) h2 -> p <= u32 now) ->
-  dec_pre hmac sha1 blk_dec zdecomp cf mem m pu pg now = inr (m', k) -> m_retry m = 0 ->
-  let rs := hrun hmac sha1 blk_dec zdecomp cf mem rs0 (h1 ++ HDecode mA puA pgA nowA :: h2) in
-  dec_process hmac sha1 blk_dec zdecomp cf mem rs m pu pg now = (dec_finish (set_err m' e_cred_replayed None), rs, None).
+         mA puA pgA tA1 tA2 mA' m pu pg t1 t2 m' k,
+  dec_pre hmac sha1 blk_dec zdecomp cf mem mA puA pgA tA1 = inr (mA', k) ->
+  clock_ok (h2 ++ [HDecode m pu pg t1 t2]) ->
+  dec_pre hmac sha1 blk_dec zdecomp cf mem m pu pg t1 = inr (m', k) -> m_retry m = 0 ->
+  let rs := hrun hmac sha1 blk_dec zdecomp cf mem rs0 (h1 ++ HDecode mA puA pgA tA1 tA2 :: h2) in
+  dec_process2 hmac sha1 blk_dec zdecomp cf mem rs m pu pg t1 t2
+    = (dec_finish (set_err m' e_cred_replayed None), rs, None) \/
+  (snd k < t2 /\ dec_process2 hmac sha1 blk_dec zdecomp cf mem rs m pu pg t1 t2
+                 = (dec_finish (set_err m' e_cred_expired None), k :: rs, None)).
 Proof. exact first_attempts_at_most_once. Qed.
 Print Assumptions C05_first_attempts_at_most_once.
 Theorem C05_two_first_attempts_not_both_ok :
   forall (hmac : N -> bytes -> bytes -> bytes) (sha1 : bytes -> bytes) (blk_dec : N -> bytes -> bytes -> bytes)
          (zdecomp : N -> bytes -> N -> option bytes) cf mem (rs0 : CredModel.rstate) h1 h2
-         mA puA pgA nowA mA' m pu pg now m' k,
-  dec_pre hmac sha1 blk_dec zdecomp cf mem mA puA pgA nowA = inr (mA', k) ->
-  (forall p, In (HPurge p) h2 -> p <= u32 now) ->
-  dec_pre hmac sha1 blk_dec zdecomp cf mem m pu pg now = inr (m', k) -> m_retry m = 0 -> m_err m = e_success ->
-  let rs := hrun hmac sha1 blk_dec zdecomp cf mem rs0 (h1 ++ HDecode mA puA pgA nowA :: h2) in
-  m_err (fst (fst (dec_process hmac sha1 blk_dec zdecomp cf mem rs m pu pg now))) = e_cred_replayed.
+         mA puA pgA tA1 tA2 mA' m pu pg t1 t2 m' k,
+  dec_pre hmac sha1 blk_dec zdecomp cf mem mA puA pgA tA1 = inr (mA', k) ->
+  clock_ok (h2 ++ [HDecode m pu pg t1 t2]) ->
+  dec_pre hmac sha1 blk_dec zdecomp cf mem m pu pg t1 = inr (m', k) -> m_retry m = 0 -> m_err m = e_success ->
+  let rs := hrun hmac sha1 blk_dec zdecomp cf mem rs0 (h1 ++ HDecode mA puA pgA tA1 tA2 :: h2) in
+  let e := m_err (fst (fst (dec_process2 hmac sha1 blk_dec zdecomp cf mem rs m pu pg t1 t2))) in
+  e = e_cred_replayed \/ e = e_cred_expired.
 Proof. exact two_first_attempts_not_both_ok. Qed.
 Print Assumptions C05_two_first_attempts_not_both_ok.
-(* a decode whose reply cannot be delivered leaves the cache EXACTLY as it found it (any request, any retry value) *)
-Theorem C05_undeliverable_decode_changes_nothing :
+(* a decode whose reply cannot be delivered leaves the cache as it found it (any request, any retry value) - except
+   that the record of a credential that expired between receipt and the replay step stays (the request does not own
+   it; it is expired and will be purged) *)
+Theorem C05_undeliverable_decode_effect :
   forall (hmac : N -> bytes -> bytes -> bytes) (sha1 : bytes -> bytes) (blk_dec : N -> bytes -> bytes -> bytes)
-         (zdecomp : N -> bytes -> N -> option bytes) cf mem (rs : CredModel.rstate) m pu pg now,
-  fst (hstep hmac sha1 blk_dec zdecomp cf mem rs (HDecodeLost m pu pg now)) = rs.
-Proof. exact lost_decode_restores. Qed.
-Print Assumptions C05_undeliverable_decode_changes_nothing.
-(* the roll-back rule BEFORE the repair (rc = 0 alone: a retry that was allowed to replay an existing record took that
-   record back when its reply could not be sent; CredHistory.dec_process_old) violates C05_first_attempts_at_most_once:
-   A first attempt delivered ok; B same credential retry = 1, reply undeliverable; C first attempt again in the window,
-   no purge - all premises hold, C succeeds again under the old rule (cache empty), is 'replayed' under the model's *)
+         (zdecomp : N -> bytes -> N -> option bytes) cf mem (rs : CredModel.rstate) m pu pg t1 t2,
+  fst (hstep hmac sha1 blk_dec zdecomp cf mem rs (HDecodeLost m pu pg t1 t2)) = rs \/
+  (exists m' k, dec_pre hmac sha1 blk_dec zdecomp cf mem m pu pg t1 = inr (m', k) /\ r_mem k rs = false /\ snd k < t2 /\
+                fst (hstep hmac sha1 blk_dec zdecomp cf mem rs (HDecodeLost m pu pg t1 t2)) = k :: rs).
+Proof. exact lost_decode_effect. Qed.
+Print Assumptions C05_undeliverable_decode_effect.
+(* the roll-back rule BEFORE repair 3dbe0fd (rc = 0 alone: a retry that was allowed to replay an existing record took
+   that record back when its reply could not be sent; CredHistory.dec_process_old) violates
+   C05_first_attempts_at_most_once: A first attempt delivered ok; B same credential retry = 1, reply undeliverable; C
+   first attempt again in the window, no purge, the clock standing still inside each decode - all premises hold, C
+   succeeds again under the old rule (cache empty), is 'replayed' under the model's *)
 Theorem C05_old_unplay_refuted :
   let pre := dec_pre toy_hmac (fun x => x) toy_blk (fun _ x _ => Some x) cf_std (fun _ _ => false) in
   let old := dec_process_old toy_hmac (fun x => x) toy_blk (fun _ x _ => Some x) cf_std (fun _ _ => false) in
-  let new := dec_process toy_hmac (fun x => x) toy_blk (fun _ x _ => Some x) cf_std (fun _ _ => false) in
-  let A := HDecode (req toy_cred 0) 7 8 5010 in
-  let B := HDecodeLost (req toy_cred 1) 7 8 5011 in
+  let new := dec_process2 toy_hmac (fun x => x) toy_blk (fun _ x _ => Some x) cf_std (fun _ _ => false) in
+  let A := HDecode (req toy_cred 0) 7 8 5010 5010 in
+  let B := HDecodeLost (req toy_cred 1) 7 8 5011 5011 in
   let C := req toy_cred 0 in
   (exists mA' m' k, pre (req toy_cred 0) 7 8 5010 = inr (mA', k) /\ pre C 7 8 5012 = inr (m', k)) /\
-  m_retry C = 0 /\ (forall p, In (HPurge p) [B] -> p <= u32 5012) /\
+  m_retry C = 0 /\ clock_ok ([A; B] ++ [HDecode C 7 8 5012 5012]) /\
   (let rs := hrun_old toy_hmac (fun x => x) toy_blk (fun _ x _ => Some x) cf_std (fun _ _ => false) [] [A; B] in
    m_err (fst (fst (old rs C 7 8 5012))) = e_success /\ rs = []) /\
   (let rs := hrun toy_hmac (fun x => x) toy_blk (fun _ x _ => Some x) cf_std (fun _ _ => false) [] [A; B] in
-   m_err (fst (fst (new rs C 7 8 5012))) = e_cred_replayed /\ List.length rs = 1%nat).
+   m_err (fst (fst (new rs C 7 8 5012 5012))) = e_cred_replayed /\ List.length rs = 1%nat).
 Proof. exact old_unplay_refuted. Qed.
 Print Assumptions C05_old_unplay_refuted.
+(* the rule BEFORE repair 41b6e44 (time check against the receipt clock only, no look at the clock after replay_insert;
+   CredHistory.dec_process_stale) violates C05_first_attempts_at_most_once: toy credential encoded at 5000 with TTL 60,
+   X = 5060 its last valid second.  A = first attempt received and processed at X: success.  Purge at X + 1: the record
+   is discarded.  C = first attempt RECEIVED at X whose replay step is at X + 1.  clock_ok and every premise hold
+   (h1 = [], h2 = [purge]); under the old rule C succeeds a SECOND time, under the model's rule it is answered 'expired'
+   with the reply's fields intact *)
+Theorem C05_stale_time_refuted :
+  let pre := dec_pre toy_hmac (fun x => x) toy_blk (fun _ x _ => Some x) cf_std (fun _ _ => false) in
+  let stale := dec_process_stale toy_hmac (fun x => x) toy_blk (fun _ x _ => Some x) cf_std (fun _ _ => false) in
+  let new := dec_process2 toy_hmac (fun x => x) toy_blk (fun _ x _ => Some x) cf_std (fun _ _ => false) in
+  let A := HDecode (req toy_cred 0) 7 8 5060 5060 in
+  let P := HPurge 5061 in
+  let C := req toy_cred 0 in
+  (exists mA' m' k, pre (req toy_cred 0) 7 8 5060 = inr (mA', k) /\ pre C 7 8 5060 = inr (m', k) /\ snd k = 5060) /\
+  m_retry C = 0 /\ clock_ok ([A; P] ++ [HDecode C 7 8 5060 5061]) /\
+  (let rs := hrun_stale toy_hmac (fun x => x) toy_blk (fun _ x _ => Some x) cf_std (fun _ _ => false) [] [A; P] in
+   rs = [] /\ m_err (fst (fst (stale rs C 7 8 5060))) = e_success) /\
+  (let rs := hrun toy_hmac (fun x => x) toy_blk (fun _ x _ => Some x) cf_std (fun _ _ => false) [] [A; P] in
+   rs = [] /\ let r := fst (fst (new rs C 7 8 5060 5061)) in
+              m_err r = e_cred_expired /\ m_data_len r = 5 /\ m_cred_uid r = 1000).
+Proof. exact stale_time_refuted. Qed.
+Print Assumptions C05_stale_time_refuted.
